@@ -270,7 +270,10 @@ def run_sequence(rec, case):
         'http_compression': comp, 'compression_threshold': thr,
         'cookie': cookie})
     try:
-        hs = [sim.open_polling(), sim.open_polling()]
+        # (one of the two sessions offers compression in its handshake:
+        # what a handshake offered says nothing about later requests)
+        hs = [sim.open_polling(headers={'Accept-Encoding': 'gzip, deflate'}),
+              sim.open_polling()]
         if any(h.sid is None for h in hs):
             V('response-failed', 'open failed')
             return
@@ -296,6 +299,8 @@ def run_sequence(rec, case):
                 h = sim.open_polling(q, headers=hd)
                 t, msgs = h.open_ticket, None
                 size = 'open'
+                if h.sid is not None and j is None:
+                    hs.append(h)    # later polls may use this session too
             else:
                 h = rng.choice(hs)
                 size = rng.choice(['small', 'small', 'long'])
